@@ -251,6 +251,11 @@ vbi_pfc_demux_feed		(vbi_pfc_demux *	dx,
 		}
 
 		if (pgno != dx->block.pgno) {
+			if (dx->packet <= dx->n_packets) {
+				/* Our page was cut short. */
+				vbi_pfc_demux_reset (dx);
+			}
+
 			dx->n_packets = 0;
 			return TRUE;
 		}
@@ -264,13 +269,20 @@ vbi_pfc_demux_feed		(vbi_pfc_demux *	dx,
 
 		stream = (subno >> 8) & 15;
 		if (stream != dx->block.stream) {
+			if (dx->packet <= dx->n_packets) {
+				/* Our page was cut short. */
+				vbi_pfc_demux_reset (dx);
+			}
+
 			dx->n_packets = 0;
 			return TRUE;
 		}
 
 		ci = subno & 15;
-		if (ci != dx->ci) {
-			/* Page continuity lost, wait for new block. */
+		if (ci != dx->ci
+		    || dx->packet <= dx->n_packets) {
+			/* Page continuity lost or last packets of the
+			   previous page missing, wait for new block. */
 			vbi_pfc_demux_reset (dx);
 		}
 
